@@ -481,13 +481,13 @@ def h_regex(exprs, max_line, tag):
 # ---- cram glob -------------------------------------------------------------------------------------------
 
 
-def glob_ref(pattern, chars):
+def glob_ref(pattern, chars, escapes=True):
     """reference glob semantics on symbolic chars: `?` exactly one char, `*` any run, `\\x` literal x for x in *?\\"""
     toks = []
     i = 0
     while i < len(pattern):
         c = pattern[i]
-        if c == "\\" and i + 1 < len(pattern) and pattern[i + 1] in "*?\\":
+        if escapes and c == "\\" and i + 1 < len(pattern) and pattern[i + 1] in "*?\\":
             toks.append(("lit", ord(pattern[i + 1])))
             i += 2
         elif c == "*":
@@ -614,6 +614,83 @@ def h_cram_glob_rule(patterns):
     return h
 
 
+class GlobModels(RegexModels):
+    """the engine boundary of the `glob` kind: WildMatch::new keeps the pattern, matches evaluates it with the reference glob semantics"""
+
+    def __init__(self):
+        super().__init__()
+        import re as pyre
+        ins = lambda pat, fn: self.table.insert(0, (pyre.compile("^(?:%s)$" % pat), fn))
+        ins(r"WildMatch::new|wildmatch::WildMatch::new|WildMatchPattern::<.*>::new", lambda c, m, a: Agg("WildMatch", None, [Str(list(as_str(a[0]).chars))]))
+
+        def wm_matches(c, m, a):
+            pat = deref(a[0]).fields[0].chars
+            if not all(ch.concrete for ch in pat):
+                raise Unsupported("symbolic glob pattern")
+            return sbool(glob_ref("".join(chr(ch.v) for ch in pat), list(as_str(a[1]).chars), escapes=False))
+        ins(r"WildMatch::matches|wildmatch::WildMatch::matches|WildMatchPattern::<.*>::matches", wm_matches)
+
+
+def h_glob_rule(patterns):
+    """GlobRule::make(p).matches(line): whatever scrut does around the engine, the verdict is the glob semantics on the line without its newline"""
+    def drive(ctx, args):
+        """GlobRule::make(p) then matches(line); engine (wildmatch) = reference glob semantics"""
+        prog = ctx.program
+        r = ctx.call(find_method(prog, "rules/glob.rs", "make"), [args[0]])
+        rule = unbox_rule(r)
+        if rule is None:
+            return Agg("tuple", None, [SBool(False), SBool(False)])
+        return Agg("tuple", None, [SBool(True), ctx.call(find_method(prog, "rules/glob.rs", "matches"), [new_ref(rule), args[1]])])
+
+    def mk_setup(p, widths, nl):
+        def f(ctx):
+            from mir_models import utf8_bytes
+            chars = [ctx.sym_char("l_%d" % i, w) for i, w in enumerate(widths)]
+            for ch in chars:
+                ctx.add(ch.z() != 10)
+            ctx.notes["line_chars"] = chars
+            body = []
+            for ch in chars:
+                body += utf8_bytes(ctx, ch)
+            return [e2.concrete_str(p), Slice(body + ([NL] if nl else []), "u8")]
+        return f
+
+    def post(ctx, args, k, value):
+        if k != "return":
+            return False
+        made, m = value.fields
+        if not made.v:
+            return False             # every pattern of the family is a valid glob
+        p = "".join(chr(c.v) for c in args[0].chars)
+        spec = glob_ref(p, ctx.notes["line_chars"], escapes=False)
+        if m.concrete and isinstance(spec, bool):
+            return m.v == spec
+        return m.z() == (z3.BoolVal(spec) if isinstance(spec, bool) else spec)
+
+    def judge(a, nk, nv):
+        p, line = a[0], bytes(a[1])
+        text = (line[:-1] if line.endswith(b"\n") else line).decode("utf-8", "replace")
+        import re as pyre
+        rx = "".join(".*" if c == "*" else "." if c == "?" else pyre.escape(c) for c in p)
+        want = pyre.fullmatch(rx, text, pyre.S) is not None
+        if nk == "return" and "Ok" in nv and nv["Ok"] != want:
+            return True, ("glob %r %s line %r although under `?` = one character, `*` = any run it %s"
+                          % (p, "matches" if nv["Ok"] else "does not match", line, "does" if want else "does not")), "glob:%s" % ("multibyte" if any(b > 0x7f for b in line) else "ascii")
+        return False, "", ""
+    inputs = []
+    for p in patterns:
+        for widths in ([], [1], [1, 1], [1, 1, 1], [2], [1, 2], [3, 1]):
+            for nl in (True, False):
+                inputs.append(("p=%r char-widths=%s nl=%s" % (p, widths, nl), mk_setup(p, widths, nl)))
+    h = e2.Harness("glob_rule_is_the_engine_on_the_line", drive, inputs, post, native="rule_matches", judge=judge,
+                   describe="GlobRule: matches(line) ⇔ glob semantics (`?` one character, `*` any run) of the expression on the line without its newline — "
+                            "scrut's own code around the wildmatch engine adds or removes nothing",
+                   bound="%d patterns over {a, b, *, ?}; lines of <= 3 characters (ASCII and multi-byte), with/without final newline; wildmatch itself replaced "
+                         "by the reference semantics" % len(patterns))
+    h.models_cls = GlobModels
+    return h
+
+
 def run(pid, tier):
     global NAT
     rep = Report(pid, tier, "other")
@@ -697,6 +774,11 @@ def run(pid, tier):
                 mism += 1
                 rep.mismatches.append("miniregex.search(%r, %r) = %r but the regex crate says %r" % (iv, line, mine, v2["Ok"]))
     rep.subclaims[-1]["concrete_validation"] = {"inputs": nval, "mismatches": mism, "function": "glob_to_regex_string + miniregex vs regex crate"}
+    # the default (Markdown) glob kind: scrut's code around the wildmatch engine
+    gp = sorted(set("".join(t) for n in range(0, (3 if q else 4) + 1) for t in itertools.product("ab*?", repeat=n)))
+    hgl = h_glob_rule(gp)
+    gval = [[e2.concrete_str(rnd.choice(gp)), e2.concrete_bytes(rnd_str("ab", 3).encode() + rnd.choice([b"", b"\n"]))] for _ in range(80)]
+    e2.process(rep, prog, NAT, hgl, tier, validate_inputs=gval, to_native_args=lambda a: ["glob", a[0], a[1]], compare=rule_cmp)
     NAT.close()
     tot_paths = sum(s.get("paths", 0) for s in rep.subclaims)
     rep.coverage.update({
@@ -704,11 +786,12 @@ def run(pid, tier):
                        "(concrete shapes, symbolic contents). For regex and cram-glob the third-party engine is cut at "
                        "Regex::new / is_match and replaced by a small regex semantics over symbolic lines (lib/miniregex.py), "
                        "so what is decided is scrut's own part: rewrites, anchoring wrapper, glob→regex translation. "
-                       "The wildmatch engine (glob) and the regex engine are outside.",
+                       "The glob kind is decided as `GlobRule::matches ⇔ the engine's verdict on the line without newline`, with wildmatch replaced by the "
+                       "reference glob semantics (validated against the real rule on concrete samples); wildmatch itself and the regex engine are outside.",
         "functions_encoded": ["EqualRule::{make,matches}", "EqualNoEolRule::{make,matches}", "EscapedRule::{make,matches}",
                               "escaped_filter::{apply_escaped_filter_bytes,unescape_tabs,resolve_escape_sequences_to_bytes}",
                               "RegexRule::{make,matches}", "regex::{cleanup_unrecognized_escape_sequences,escape_misused_repetition_quantifier,escape_misused_character_class}",
-                              "glob_cram::glob_to_regex_string", "newline::{assure_newline,trim_newlines}"],
+                              "glob_cram::glob_to_regex_string", "GlobRule::{make,matches}", "newline::{assure_newline,trim_newlines}"],
         "evaluations": tot_paths, "distinct_nontrivial": tot_paths,
         "rule": "one case = one feasible path of the MIR under one input shape; distinct by path condition",
         "samples": [s for sc in rep.subclaims for s in sc.get("samples", [])][:4] or ["see subclaims"],
